@@ -329,6 +329,7 @@ func checkC12(p *Prog, r *Report) {
 	// R12e
 	fc.ruleReadAt2(r, mem, dir)
 	fc.ruleLinkDelete2(r, mem)
+	fc.ruleLinkRoles(r, mem, dir)
 	r.Rule("R12f", "List is exactly the set of names: the directory implementation returns the names accumulated by the kernel enumeration (unix.ParseDirent threaded through the read loop) and nothing rebuilds or filters them; the in-memory implementation appends every directory entry whose directory equals the argument, under no other condition", 2)
 	fc.ruleList(r, mem, dir)
 	// contents clause of AtomicCreate, shared with C13 (filed there as R13c / R13e)
